@@ -221,8 +221,8 @@ def scan_assumptions(image_text):
     for i, ln in enumerate(lines):
         s = ln.strip()
         if 'assume_specification' in s and not s.startswith('//'):
-            m = re.search(r'assume_specification\s*(<[^\[]*>)?\s*\[([^\]]*(\][^\]]*)?)\]', s)
-            out.append('assume_specification %s' % (m.group(2).strip() if m else s[:80]))
+            m = re.search(r'assume_specification\s*(?:<.*?>\s*)?\[\s*(.*?)\s*\]\s*\(', s)
+            out.append('assume_specification %s' % (m.group(1).strip() if m else s[:80]))
         elif re.search(r'\baxiom fn\b', s):
             m = re.search(r'axiom fn (\w+)', s)
             out.append('axiom %s' % m.group(1))
@@ -712,6 +712,7 @@ def decide_one(p, a, seed, t0, vr, cr, seeds, kr, fails, maps, image, lookup, co
         samples.append({'label': 'kani:' + h['name'], 'function': h.get('fn'), 'clause': h.get('what', ''), 'backend': 'kani' + (' (complete)' if h['complete'] else ' (bounded: %s)' % h.get('bound')),
                         'status': h['status']})
     my_ext = sorted(k for k in ext if any(l['fn'] == k for _, l in my_labels))
+    prelude_ext = sorted(k for k in ext if k.startswith('vf_prelude') or k.startswith('md5'))
     cov = {
         'obligations': obligations,
         'discharged': discharged,
@@ -747,7 +748,8 @@ def decide_one(p, a, seed, t0, vr, cr, seeds, kr, fails, maps, image, lookup, co
     }
     ev = {
         'property_id': p, 'tier': a.tier, 'seed': seed, 'level': 'proof', 'coverage': cov,
-        'assumptions': assumptions + ['external_body (contract assumed in Verus, discharged by Kani where a harness is listed): ' + k for k in my_ext],
+        'assumptions': assumptions + ['external_body (contract assumed in Verus, discharged by Kani where a harness is listed): ' + k for k in my_ext]
+                       + ['prelude wrapper / stand-in with assumed contract: ' + k for k in prelude_ext],
         'wall_s': round(time.time() - t0, 2), 'violations': len(new_viol) + len(kani_viol),
     }
     if rc == 2:
